@@ -181,6 +181,28 @@ fn o_days_since_epoch(y: i32, m: u32, d: u32) -> i64 {
     y1 * 365 + y1 / 4 - y1 / 100 + y1 / 400 + o_doy(y, m, d) as i64 - 1 + DAY_MIN as i64
 }
 
+fn assert_ymd_error(e: &Error, y: i32, m: u32, d: u32) {
+    if y < 1 || y > 9999 {
+        assert!(matches!(e, Error::DateOutOfRange));
+    } else if m < 1 || m > 12 {
+        assert!(matches!(e, Error::InvalidMonth));
+    } else if d < 1 || d > 31 {
+        assert!(matches!(e, Error::InvalidDay));
+    } else {
+        assert!(matches!(e, Error::InvalidDate));
+    }
+}
+
+fn assert_hms_error(e: &Error, h: u32, mi: u32, _s: u32) {
+    if h >= 24 {
+        assert!(matches!(e, Error::TimeOutOfRange));
+    } else if mi >= 60 {
+        assert!(matches!(e, Error::InvalidMinute));
+    } else {
+        assert!(matches!(e, Error::InvalidSecond));
+    }
+}
+
 fn tod_total(dt: &NaiveDateTime) -> i128 {
     dt.hour as i128 * 3_600_000_000 + dt.minute as i128 * 60_000_000 + dt.sec as i128 * 1_000_000 + dt.usec as i128
 }
@@ -191,7 +213,10 @@ fn s05_conv_date(ylo: i32, yhi: i32) {
     let (y, m, d) = (dt.year, dt.month, dt.day);
     match Date::try_from(dt) {
         Ok(x) => assert!(o_valid_ymd(y, m, d) && x.days() as i64 == o_days_since_epoch(y, m, d)),
-        Err(_) => assert!(!o_valid_ymd(y, m, d)),
+        Err(e) => {
+            assert!(!o_valid_ymd(y, m, d));
+            assert_ymd_error(&e, y, m, d);
+        }
     }
 }
 
@@ -200,9 +225,17 @@ fn s05_conv_time() {
     let dt = any_naive(-999_999_999, 999_999_999);
     let fields = dt.hour < 24 && dt.minute < 60 && dt.sec < 60;
     let total = tod_total(&dt);
+    let (h, mi, sc) = (dt.hour, dt.minute, dt.sec);
     match Time::try_from(dt) {
         Ok(x) => assert!(fields && total < USECS_DAY as i128 && x.usecs() as i128 == total),
-        Err(_) => assert!(!(fields && total < USECS_DAY as i128)),
+        Err(e) => {
+            assert!(!(fields && total < USECS_DAY as i128));
+            if fields {
+                assert!(matches!(e, Error::TimeOutOfRange));
+            } else {
+                assert_hms_error(&e, h, mi, sc);
+            }
+        }
     }
 }
 
@@ -212,15 +245,23 @@ fn s05_conv_ts(ylo: i32, yhi: i32) {
     let (y, m, d) = (dt.year, dt.month, dt.day);
     let fields = dt.hour < 24 && dt.minute < 60 && dt.sec < 60;
     let tod = tod_total(&dt);
+    let (hh, mi2, ss) = (dt.hour, dt.minute, dt.sec);
     match Timestamp::try_from(dt) {
         Ok(x) => {
             assert!(o_valid_ymd(y, m, d) && fields);
             let total = o_days_since_epoch(y, m, d) as i128 * USECS_DAY as i128 + tod;
             assert!(x.usecs() as i128 == total && total <= TS_MAX as i128);
         }
-        Err(_) => {
+        Err(e) => {
             let ok = o_valid_ymd(y, m, d) && fields && o_days_since_epoch(y, m, d) as i128 * USECS_DAY as i128 + tod <= TS_MAX as i128;
             assert!(!ok);
+            if !o_valid_ymd(y, m, d) {
+                assert_ymd_error(&e, y, m, d);
+            } else if !fields {
+                assert_hms_error(&e, hh, mi2, ss);
+            } else {
+                assert!(matches!(e, Error::DateOutOfRange));
+            }
         }
     }
 }
@@ -467,12 +508,12 @@ fn o_trunc_t(unit: i64, y: i32, m: u32, d: u32, n: i32) -> i32 {
     }
 }
 
-//@ unit s10_date prop=C10,C02,C03 engine=smt chunks=range:0:11 quick=all timeout=1800 mem=4 bound="Date truncation to the unit given by the parameter (0 century .. 11 minute) for every real date 0001-01-01..9999-12-31 (three symbolic integers): the result is the start of the unit containing the date, DateOutOfRange iff that start precedes 0001-01-01; Date::extract is replaced by its contract for the date under test (decided by C01)"
-fn s10_date(unit: i64) {
+//@ unit s10_date prop=C10,C02,C03 engine=smt chunks=tuples:0,1,9999;1,1,9999;2,1,9999;3,1,9999;4,1,9999;5,1,9999;6,1,9999;7,1,9999;8,1,9999;9,1,9999;10,1,9999;11,1,9999 quick=all timeout=1800 mem=4 bound="Date truncation to the unit given by the first parameter (0 century .. 11 minute) for every real date of the years given by the other two (together 0001-01-01..9999-12-31; three symbolic integers): the result is the start of the unit containing the date, DateOutOfRange iff that start precedes 0001-01-01; Date::extract is replaced by its contract for the date under test (decided by C01)"
+fn s10_date(unit: i64, ylo: i32, yhi: i32) {
     let y: i32 = kani::any();
     let m: u32 = kani::any();
     let d: u32 = kani::any();
-    kani::assume(o_valid_ymd(y, m, d));
+    kani::assume(o_valid_ymd(y, m, d) && y >= ylo && y <= yhi);
     let x = Date::try_from_ymd(y, m, d).unwrap();
     let n = x.days();
     let b = o_trunc_t(unit, y, m, d, n);
@@ -496,12 +537,12 @@ fn s10_date(unit: i64) {
     }
 }
 
-//@ unit s11_date prop=C11,C02,C03 engine=smt chunks=ints:0,1,2,3,4,6,7,8,9,10,11 quick=all timeout=1800 mem=4 bound="Date rounding to the unit given by the parameter (all units but the year-anchored week, which c11_date__v5 covers) for every real date: the documented neighbour, DateOutOfRange iff it lies outside 0001-01-01..9999-12-31; for the century unit the years divisible by 100 are excluded here (c11_century_y00_*); Date::extract under its contract"
-fn s11_date(unit: i64) {
+//@ unit s11_date prop=C11,C02,C03 engine=smt chunks=tuples:0,1,9999;1,1,9999;2,1,9999;3,1,9999;4,1,9999;6,1,9999;7,1,9999;8,1,9999;9,1,9999;10,1,9999;11,1,9999 quick=all timeout=1800 mem=4 bound="Date rounding to the unit given by the first parameter (all units but the year-anchored week, which c11_date__v5 covers) for every real date of the years given by the other two: the documented neighbour, DateOutOfRange iff it lies outside 0001-01-01..9999-12-31; for the century unit the years divisible by 100 are excluded here (c11_century_y00_*); Date::extract under its contract"
+fn s11_date(unit: i64, ylo: i32, yhi: i32) {
     let y: i32 = kani::any();
     let m: u32 = kani::any();
     let d: u32 = kani::any();
-    kani::assume(o_valid_ymd(y, m, d));
+    kani::assume(o_valid_ymd(y, m, d) && y >= ylo && y <= yhi);
     if unit == 0 {
         kani::assume(y % 100 != 0);
     }
@@ -584,4 +625,253 @@ fn s17_cmp() {
     assert!((d == ts) == (dv == u) && (ts == d) == (dv == u) && d.partial_cmp(&ts) == Some(dv.cmp(&u)) && ts.partial_cmp(&d) == Some(u.cmp(&dv)));
     assert!((od == ts) == (ov == u) && (ts == od) == (ov == u) && od.partial_cmp(&ts) == Some(ov.cmp(&u)) && ts.partial_cmp(&od) == Some(u.cmp(&ov)));
     assert!((od == d) == (ov == dv) && (d == od) == (ov == dv) && od.partial_cmp(&d) == Some(ov.cmp(&dv)) && d.partial_cmp(&od) == Some(dv.cmp(&ov)));
+}
+
+//@ unit s17_ts_delegation prop=C17,C10,C11,C02,C03 engine=smt chunks=range:0:18 quick=all bound="every valid timestamp, operation = parameter (10 truncations century..Sunday week, 5 calendar roundings, 4 week roundings): the result is the Date operation applied to the timestamp's date part - the following day from 12:00 on for the week roundings - at midnight, errors passed through; the Date operations are uninterpreted functions of their arguments here (decided by s10_date/s11_date/c11_date)"
+fn s17_ts_delegation(which: i64) {
+    let u: i64 = kani::any();
+    kani::assume(u >= TS_MIN && u <= TS_MAX);
+    let ts = mk_ts(u);
+    let n = u.div_euclid(USECS_DAY);
+    let t = u.rem_euclid(USECS_DAY);
+    let week_round = which >= 15;
+    let n2 = if week_round && t >= USECS_DAY / 2 { n + 1 } else { n };
+    let got = match which {
+        0 => ts.trunc_century(),
+        1 => ts.trunc_year(),
+        2 => ts.trunc_iso_year(),
+        3 => ts.trunc_quarter(),
+        4 => ts.trunc_month(),
+        5 => ts.trunc_week(),
+        6 => ts.trunc_iso_week(),
+        7 => ts.trunc_month_start_week(),
+        8 => ts.trunc_day(),
+        9 => ts.trunc_sunday_start_week(),
+        10 => ts.round_century(),
+        11 => ts.round_year(),
+        12 => ts.round_iso_year(),
+        13 => ts.round_quarter(),
+        14 => ts.round_month(),
+        15 => ts.round_week(),
+        16 => ts.round_iso_week(),
+        17 => ts.round_month_start_week(),
+        _ => ts.round_sunday_start_week(),
+    };
+    if n2 > DAY_MAX as i64 {
+        assert!(got.is_err());
+        return;
+    }
+    let d = mk_date(n2 as i32);
+    let exp = match which {
+        0 => d.trunc_century(),
+        1 => d.trunc_year(),
+        2 => d.trunc_iso_year(),
+        3 => d.trunc_quarter(),
+        4 => d.trunc_month(),
+        5 => d.trunc_week(),
+        6 => d.trunc_iso_week(),
+        7 => d.trunc_month_start_week(),
+        8 => d.trunc_day(),
+        9 => d.trunc_sunday_start_week(),
+        10 => d.round_century(),
+        11 => d.round_year(),
+        12 => d.round_iso_year(),
+        13 => d.round_quarter(),
+        14 => d.round_month(),
+        15 => d.round_week(),
+        16 => d.round_iso_week(),
+        17 => d.round_month_start_week(),
+        _ => d.round_sunday_start_week(),
+    };
+    match (got, exp) {
+        (Ok(a), Ok(b)) => assert!(a.usecs() == b.days() as i64 * USECS_DAY),
+        (Err(_), Err(_)) => {}
+        _ => assert!(false),
+    }
+}
+
+// ---- constructor grids and linear arithmetic through the second engine ------------------------
+//@ unit s01_accept prop=C01,C02,C03 engine=smt bound="every (i32 year, u32 month, u32 day): try_from_ymd / validate_ymd / is_valid accept exactly the real dates of years 1..=9999 with the documented error precedence; every i32 for try_from_days"
+fn s01_accept() {
+    let y: i32 = kani::any();
+    let m: u32 = kani::any();
+    let d: u32 = kani::any();
+    let n: i32 = kani::any();
+    let ok = o_valid_ymd(y, m, d);
+    let r = Date::try_from_ymd(y, m, d);
+    assert!(r.is_ok() == ok && Date::is_valid(y, m, d) == ok);
+    if !ok {
+        if y < 1 || y > 9999 {
+            assert!(matches!(r, Err(Error::DateOutOfRange)));
+        } else if m < 1 || m > 12 {
+            assert!(matches!(r, Err(Error::InvalidMonth)));
+        } else if d < 1 || d > 31 {
+            assert!(matches!(r, Err(Error::InvalidDay)));
+        } else {
+            assert!(matches!(r, Err(Error::InvalidDate)));
+        }
+    }
+    match Date::try_from_days(n) {
+        Ok(x) => assert!(n >= DAY_MIN && n <= DAY_MAX && x.days() == n),
+        Err(e) => assert!((n < DAY_MIN || n > DAY_MAX) && matches!(e, Error::DateOutOfRange)),
+    }
+}
+
+//@ unit s07_time_ctor prop=C07,C02,C03 engine=smt bound="every (u32 hour, minute, second, microsecond) and every i64: Time::try_from_hms / is_valid / try_from_usecs accept exactly the valid tuples / counts, with the documented errors"
+fn s07_time_ctor() {
+    let h: u32 = kani::any();
+    let mi: u32 = kani::any();
+    let s: u32 = kani::any();
+    let us: u32 = kani::any();
+    let t: i64 = kani::any();
+    let ok = h < 24 && mi < 60 && s < 60 && us < 1_000_000;
+    match Time::try_from_hms(h, mi, s, us) {
+        Ok(x) => assert!(ok && x.usecs() == h as i64 * 3_600_000_000 + mi as i64 * 60_000_000 + s as i64 * 1_000_000 + us as i64),
+        Err(e) => {
+            assert!(!ok);
+            if h >= 24 {
+                assert!(matches!(e, Error::TimeOutOfRange));
+            } else if mi >= 60 {
+                assert!(matches!(e, Error::InvalidMinute));
+            } else if s >= 60 {
+                assert!(matches!(e, Error::InvalidSecond));
+            } else {
+                assert!(matches!(e, Error::InvalidFraction));
+            }
+        }
+    }
+    assert!(Time::is_valid(h, mi, s, us) == ok);
+    match Time::try_from_usecs(t) {
+        Ok(x) => assert!(t >= 0 && t < USECS_DAY && x.usecs() == t),
+        Err(e) => assert!((t < 0 || t >= USECS_DAY) && matches!(e, Error::TimeOutOfRange)),
+    }
+}
+
+//@ unit s13_ctor prop=C13,C02,C03 engine=smt bound="every (u32 years, u32 months), every i32, every (u32 days, hours, minutes, seconds, microseconds), every i64: the interval constructors and validity predicates accept exactly the values inside the symmetric documented ranges, with the documented errors"
+fn s13_ctor() {
+    let yy: u32 = kani::any();
+    let mm: u32 = kani::any();
+    let months: i32 = kani::any();
+    let d: u32 = kani::any();
+    let h: u32 = kani::any();
+    let mi: u32 = kani::any();
+    let s: u32 = kani::any();
+    let us: u32 = kani::any();
+    let usecs: i64 = kani::any();
+    let okym = mm < 12 && yy as i64 * 12 + mm as i64 <= YM_MAX as i64;
+    match IntervalYM::try_from_ym(yy, mm) {
+        Ok(x) => assert!(okym && x.months() as i64 == yy as i64 * 12 + mm as i64),
+        Err(e) => {
+            assert!(!okym);
+            if yy > 178_000_000 || (yy == 178_000_000 && mm != 0) {
+                assert!(matches!(e, Error::IntervalOutOfRange));
+            } else {
+                assert!(matches!(e, Error::InvalidMonth));
+            }
+        }
+    }
+    assert!(IntervalYM::is_valid_ym(yy, mm) == okym);
+    assert!(IntervalYM::try_from_months(months).is_ok() == (months >= -YM_MAX && months <= YM_MAX));
+    let total = d as i128 * USECS_DAY as i128 + h as i128 * 3_600_000_000 + mi as i128 * 60_000_000 + s as i128 * 1_000_000 + us as i128;
+    let okdt = h < 24 && mi < 60 && s < 60 && us < 1_000_000 && total <= DT_MAX as i128;
+    match IntervalDT::try_from_dhms(d, h, mi, s, us) {
+        Ok(x) => assert!(okdt && x.usecs() as i128 == total),
+        Err(e) => {
+            assert!(!okdt);
+            if d > 100_000_000 || (d == 100_000_000 && (h != 0 || mi != 0 || s != 0 || us != 0)) {
+                assert!(matches!(e, Error::IntervalOutOfRange));
+            } else if h >= 24 {
+                assert!(matches!(e, Error::TimeOutOfRange));
+            } else if mi >= 60 {
+                assert!(matches!(e, Error::InvalidMinute));
+            } else if s >= 60 {
+                assert!(matches!(e, Error::InvalidSecond));
+            } else {
+                assert!(matches!(e, Error::InvalidFraction));
+            }
+        }
+    }
+    assert!(IntervalDT::is_valid(d, h, mi, s, us) == okdt);
+    assert!(IntervalDT::try_from_usecs(usecs).is_ok() == (usecs >= -DT_MAX && usecs <= DT_MAX));
+}
+
+//@ unit s08_linear prop=C08,C02,C03 engine=smt bound="every valid date x every i32 day offset, every pair of dates, of year-month intervals, of day-time intervals, every day-time interval x time of day: add/sub equal exact integer arithmetic, Ok iff the exact result is inside the result type's range"
+fn s08_linear() {
+    let n: i32 = kani::any();
+    let k: i32 = kani::any();
+    let n2: i32 = kani::any();
+    let a: i32 = kani::any();
+    let b: i32 = kani::any();
+    let p: i64 = kani::any();
+    let q: i64 = kani::any();
+    let t: i64 = kani::any();
+    kani::assume(n >= DAY_MIN && n <= DAY_MAX && n2 >= DAY_MIN && n2 <= DAY_MAX && a >= -YM_MAX && a <= YM_MAX && b >= -YM_MAX && b <= YM_MAX);
+    kani::assume(p >= -DT_MAX && p <= DT_MAX && q >= -DT_MAX && q <= DT_MAX && t >= 0 && t < USECS_DAY);
+    let in_day = |x: i64| x >= DAY_MIN as i64 && x <= DAY_MAX as i64;
+    match mk_date(n).add_days(k) {
+        Ok(x) => assert!(in_day(n as i64 + k as i64) && x.days() as i64 == n as i64 + k as i64),
+        Err(_) => assert!(!in_day(n as i64 + k as i64)),
+    }
+    match mk_date(n).sub_days(k) {
+        Ok(x) => assert!(in_day(n as i64 - k as i64) && x.days() as i64 == n as i64 - k as i64),
+        Err(_) => assert!(!in_day(n as i64 - k as i64)),
+    }
+    assert!(mk_date(n).sub_date(mk_date(n2)) == n - n2);
+    let in_ym = |x: i64| x >= -(YM_MAX as i64) && x <= YM_MAX as i64;
+    match mk_ym(a).add_interval_ym(mk_ym(b)) {
+        Ok(x) => assert!(in_ym(a as i64 + b as i64) && x.months() as i64 == a as i64 + b as i64),
+        Err(_) => assert!(!in_ym(a as i64 + b as i64)),
+    }
+    match mk_ym(a).sub_interval_ym(mk_ym(b)) {
+        Ok(x) => assert!(in_ym(a as i64 - b as i64) && x.months() as i64 == a as i64 - b as i64),
+        Err(_) => assert!(!in_ym(a as i64 - b as i64)),
+    }
+    let in_dt = |x: i128| x >= -(DT_MAX as i128) && x <= DT_MAX as i128;
+    match mk_dt(p).add_interval_dt(mk_dt(q)) {
+        Ok(x) => assert!(in_dt(p as i128 + q as i128) && x.usecs() as i128 == p as i128 + q as i128),
+        Err(_) => assert!(!in_dt(p as i128 + q as i128)),
+    }
+    match mk_dt(p).sub_interval_dt(mk_dt(q)) {
+        Ok(x) => assert!(in_dt(p as i128 - q as i128) && x.usecs() as i128 == p as i128 - q as i128),
+        Err(_) => assert!(!in_dt(p as i128 - q as i128)),
+    }
+    match mk_dt(p).sub_time(mk_time(t)) {
+        Ok(x) => assert!(in_dt(p as i128 - t as i128) && x.usecs() as i128 == p as i128 - t as i128),
+        Err(_) => assert!(!in_dt(p as i128 - t as i128)),
+    }
+}
+
+//@ unit s09_last_day prop=C09,C17,C02,C03 engine=smt bound="every real date (y, m, d) x every time of day: last_day_of_month of Date and Timestamp = the final day (28/29/30/31) of the value's own month, time of day unchanged; Date::extract under its contract"
+fn s09_last_day() {
+    let y: i32 = kani::any();
+    let m: u32 = kani::any();
+    let d: u32 = kani::any();
+    let _n: i32 = kani::any();
+    let t: i64 = kani::any();
+    kani::assume(o_valid_ymd(y, m, d) && t >= 0 && t < USECS_DAY);
+    let x = Date::try_from_ymd(y, m, d).unwrap();
+    let last = Date::try_from_ymd(y, m, o_dim(y, m)).unwrap();
+    assert!(x.last_day_of_month() == last);
+    assert!(Timestamp::new(x, mk_time(t)).last_day_of_month() == Timestamp::new(last, mk_time(t)));
+}
+
+//@ unit s18_now prop=C18,C02,C03 engine=smt clock=1 bound="every current local instant of years 1..=9999 to the microsecond (seven symbolic clock fields; chrono's now()/naive_local() are opaque, its field accessors return the symbolic clock) and every time of day: Date::now, Timestamp::now, OracleDate::now (microseconds dropped) and TryFrom<Time> for Timestamp / OracleDate report that date and time"
+fn s18_now() {
+    // the first seven inputs are the clock (the native replay sets the shimmed system clock from them)
+    let cy: i32 = kani::any();
+    let cm: u32 = kani::any();
+    let cd: u32 = kani::any();
+    let ch: u32 = kani::any();
+    let cmi: u32 = kani::any();
+    let cs: u32 = kani::any();
+    let cus: u32 = kani::any();
+    let t: i64 = kani::any();
+    kani::assume(o_valid_ymd(cy, cm, cd) && ch < 24 && cmi < 60 && cs < 60 && cus < 1_000_000 && t >= 0 && t < USECS_DAY);
+    let n = Date::try_from_ymd(cy, cm, cd).unwrap().days() as i64;
+    let tod = ch as i64 * 3_600_000_000 + cmi as i64 * 60_000_000 + cs as i64 * 1_000_000;
+    assert!(Date::now().unwrap().days() as i64 == n);
+    assert!(Timestamp::now().unwrap().usecs() == n * USECS_DAY + tod + cus as i64);
+    assert!(OracleDate::now().unwrap().usecs() == n * USECS_DAY + tod);
+    assert!(Timestamp::try_from(mk_time(t)).unwrap().usecs() == n * USECS_DAY + t);
+    assert!(OracleDate::try_from(mk_time(t)).unwrap().usecs() == n * USECS_DAY + t - t % 1_000_000);
 }
